@@ -100,6 +100,7 @@ def split(config, x):
 A_MENU = [np.zeros(3), np.array([0, 0, 9.8]), np.array([3.0, -2.0, 11.0])]
 W_MENU = [np.zeros(3), np.array([1e-9, 0, 0]), np.array([0.3, -0.2, 0.5]), np.array([0, 0, 30.0])]
 G_MENU = [0.0, 9.8]
+G_ONESTEP = [0.0, 9.8, -9.8]  # one-step lattice: also the z-down sign convention (g < 0)
 DT_MENU = [0.0, 1e-3, 0.01, 0.5, 2.0]
 
 
@@ -169,7 +170,7 @@ def explore_onestep(case):
                 if k in seen:
                     continue
                 seen.add(k)
-                for g in G_MENU:
+                for g in G_ONESTEP:
                     res.count("evaluations")
                     x1 = step(config, x0, a, w, g, dt)
                     pr, vr, Rr = ref_step(p0, v0, R0, a, w, g, dt)
@@ -343,6 +344,33 @@ def explore_pyapi(case):
                 if not (np.array_equal(numapi.ev(l.param).reshape(-1), lp) and np.array_equal(numapi.ev(r.param).reshape(-1), rp)):
                     res.fail(site=config, clause="python_api_reused_elements:arguments_not_mutated", cls="-",
                              detail=dict(l_before=lp, l_after=numapi.ev(l.param).reshape(-1), r_after=numapi.ev(r.param).reshape(-1)), sub="pyapi", case=case)
+    # the initial state spelled `G.identity()` (its position / velocity entries are structural zeros) and as a structurally sparse element
+    for config, G in (("strapdown_quat", lib.lie.SE23Quat), ("exp_mixed_mrp", lib.lie.SE23Mrp)):
+        a, w, g, dt = A_MENU[2], W_MENU[2], 9.8, 0.25
+        l = lib.lie.se23.elem(ca.DM(np.concatenate([np.zeros(3), a, w])))
+        r = lib.lie.se23.elem(ca.DM([0, 0, 0, 0, 0, -g, 0, 0, 0.0]))
+        Bm = ca.sparsify(ca.SX([[0, 1], [0, 0]]))
+        with contextlib.redirect_stdout(io.StringIO()):
+            xid = numapi.ev(G.identity().param).reshape(-1)
+        sparse_id = ca.SX(len(xid), 1)
+        for k_, v_ in enumerate(xid):
+            if v_ != 0:
+                sparse_id[k_] = float(v_)
+        for tag, mk0 in (("identity()", lambda: G.identity()), ("sparse_element", lambda: G.elem(sparse_id)), ("dense_element", lambda: G.elem(ca.DM(xid)))):
+            res.count("evaluations")
+            res.nontrivial.add(hash((config, tag)))
+            try:
+                with contextlib.redirect_stdout(io.StringIO()):
+                    X = mk0()
+                    p, v, R = split(config, xid)
+                    for k in range(2):
+                        X = G.exp_mixed(X, l * dt, r * dt, Bm * dt)
+                        p, v, R = ref_step(p, v, R, a, w, g, dt)
+                        x1 = numapi.ev(X.param).reshape(-1)
+                        if not judge(res, config, x1, p, v, R, 1.0 + (k + 1) * dt, "python_api_initial_state_spelling", dict(spelling=tag, step=k + 1, cls=tag), case, steps=k + 1):
+                            break
+            except Exception as ex:
+                res.fail(site=config, clause="python_api_reused_elements:no_exception", cls=tag, detail=dict(error="%s: %s" % (type(ex).__name__, str(ex)[:200])), sub="pyapi", case=case)
     # an IMU stream integrated from ONE work vector that is refilled in place for every sample (buf[3:6] = a_k; buf[6:9] = w_k), all the
     # per-sample algebra elements created first and used afterwards: every step must use the inputs of its own sample
     for config, G in (("strapdown_quat", lib.lie.SE23Quat), ("exp_mixed_mrp", lib.lie.SE23Mrp)):
